@@ -1,0 +1,33 @@
+//go:build verif
+
+// Package verifhook holds the verification taps of bmeg/grip. With the build
+// tag `verif` the harness installs an event recorder and a delay injector.
+package verifhook
+
+import "sync/atomic"
+
+type emitFn func(site string, a, b int64)
+type pointFn func(site string)
+
+var emit atomic.Value  // emitFn
+var point atomic.Value // pointFn
+
+// SetEmit installs the event recorder (nil removes it).
+func SetEmit(f func(site string, a, b int64)) { emit.Store(emitFn(f)) }
+
+// SetPoint installs the delay injector (nil removes it).
+func SetPoint(f func(site string)) { point.Store(pointFn(f)) }
+
+// Emit reports an event of the traveler protocol.
+func Emit(site string, a, b int64) {
+	if f, ok := emit.Load().(emitFn); ok && f != nil {
+		f(site, a, b)
+	}
+}
+
+// Point marks a place where a verification run may inject a delay.
+func Point(site string) {
+	if f, ok := point.Load().(pointFn); ok && f != nil {
+		f(site)
+	}
+}
